@@ -1187,15 +1187,23 @@ int main(int argc, char** argv) {
         out.stat("scaled_max_smoothing_residual_db_e15", (long long)(std::max(sc.max_tc_err, sl.max_tc_err) * 1e15L));
     }
 
-    // informative probe, NOT part of the oracle (outside the stated quantifier 0..4 s only by the sign bit):
-    // a time of -0.0 passes the constructors' `>= 0` guards, sample_rate * -0.0 = -0.0, -log 9 / -0.0 = +inf,
-    // exp(+inf) = inf: the coefficient is inf and every output is NaN.  (The model's `coef` returns 0 there.)
+    // a time constant of -0.0 IS inside the quantifier 0..4 s (it equals 0 and passes the constructors' `>= 0` guards): it once gave
+    // exp(-log 9 / -0.0) = exp(+inf) = inf as smoothing coefficient and NaN on every sample (repaired in /repo, known_findings.txt).
+    // Strict probe: every processor with -0.0 for the attack and / or release time must behave bit for bit like the one built with +0.0.
     {
-        Limiter l(44100, -10.0, 0.0, -0.0, 0.2);
-        arr_real x(3);
-        x[0] = 0.5; x[1] = 1.0; x[2] = 0.1;
-        auto r = l.process(x);
-        out.stat("probe_negative_zero_attack_gives_nan", std::isnan(r.out[0]) ? 1 : 0);
+        arr_real x(64);
+        vh::Rng pr(a.seed * 7919 + 17);
+        for (int i = 0; i < 64; ++i) x[i] = (i % 9 == 0) ? 0.0 : pr.gauss() * ((i / 16) % 2 ? 3.0 : 0.05);
+        auto same = [&](const arr_real& u, const arr_real& v) { for (int i = 0; i < u.size(); ++i) if (!(std::isfinite(u[i]) && vh::hx(u[i]) == vh::hx(v[i]))) return false; return true; };
+        for (int m = 1; m < 4; ++m) {
+            const double ta = (m & 1) ? -0.0 : 0.0, tr = (m & 2) ? -0.0 : 0.2, tr0 = (m & 2) ? 0.0 : 0.2;
+            const std::string js = "{\"attack\":" + std::string((m & 1) ? "-0.0" : "0.0") + ",\"release\":" + std::string((m & 2) ? "-0.0" : "0.2") + "}";
+            { Compressor p1(44100, -10.0, 5, 4.0, ta, tr), p0(44100, -10.0, 5, 4.0, 0.0, tr0); auto r1 = p1.process(x), r0 = p0.process(x);
+              out.n_oracle++; if (!same(r1.gain, r0.gain) || !same(r1.out, r0.out)) out.fail("C20:negative-zero-time:compressor", js); }
+            { Limiter p1(44100, -10.0, 2.0, ta, tr), p0(44100, -10.0, 2.0, 0.0, tr0); auto r1 = p1.process(x), r0 = p0.process(x);
+              out.n_oracle++; if (!same(r1.gain, r0.gain) || !same(r1.out, r0.out)) out.fail("C20:negative-zero-time:limiter", js); }
+        }
+        out.stat("negative_zero_time_probes", 6);
     }
 
     vh::unwatch();
